@@ -311,6 +311,29 @@ fn universe(section: &str, fs: &FsSpec, loaded: &Loaded, entry_key: u64) -> Vec<
         }
         "file-kinds" => {
             out.push(("crlf *".into(), vec![Fault::new(FaultKind::Crlf, Sel::All)]));
+            for k in 0..4u64 {
+                out.push((
+                    format!("long_lines#{k} *"),
+                    vec![Fault::new(FaultKind::LongLines, Sel::All).ab(0x10a6 + k, 0)],
+                ));
+            }
+            for (n, f) in loaded.files.iter().enumerate() {
+                // long non-ASCII lines together with a failure that has to be rendered
+                out.push((
+                    format!("long_lines + not_found {f}"),
+                    vec![
+                        Fault::new(FaultKind::LongLines, Sel::All).ab(0x10a6 + n as u64, 0),
+                        Fault::new(FaultKind::NotFound, file(f)),
+                    ],
+                ));
+                out.push((
+                    format!("long_lines + nul {f}"),
+                    vec![
+                        Fault::new(FaultKind::LongLines, Sel::All).ab(0x20a6 + n as u64, 0),
+                        Fault::new(FaultKind::Nul, file(f)).ab(fs.files[f].len() as u64 / 2, 0),
+                    ],
+                ));
+            }
             out.push(("bom *".into(), vec![Fault::new(FaultKind::Bom, Sel::All)]));
             for (fi, f) in loaded.files.iter().enumerate() {
                 let text = &fs.files[f];
@@ -347,6 +370,7 @@ fn universe(section: &str, fs: &FsSpec, loaded: &Loaded, entry_key: u64) -> Vec<
                     ("absolute", "/usr/include/x.h"),
                     ("trailing-slash", "dir/"),
                     ("unicode", "h\u{e9}ader \u{2603}.h"),
+                    ("unique-per-request", "<unique>"),
                 ] {
                     out.push((
                         format!("real_name({tag}) {f}"),
@@ -585,7 +609,21 @@ pub fn cases(ctx: &Ctx, section: &str, i: u64) -> Vec<Case> {
                 if r.chance(1, 8) {
                     t.target = Target::MetalBytecode;
                 }
-                let stack = if r.chance(1, 2) { STACK_SMALL } else { STACK_MAIN };
+                if r.chance(1, 4) {
+                    t.faults
+                        .push(Fault::new(FaultKind::LongLines, Sel::All).ab(r.next_u64() >> 20, 0));
+                }
+                if r.chance(1, 6) {
+                    // every file is named differently on every request
+                    for f in &base.pasted {
+                        t.faults.push(
+                            Fault::new(FaultKind::RealName, Sel::File(f.clone())).text("<unique>"),
+                        );
+                    }
+                }
+                // 512 KiB in this optimised build holds about as many include levels as the 2 MiB
+                // default does in the repository's dev profile (measured: 200 levels fit in 256 KiB)
+                let stack = [STACK_SMALL, STACK_MAIN, 512 * 1024][r.below(3) as usize];
                 out.push(total_case(
                     &format!("W3:total#{n}"),
                     g.fs.clone(),
